@@ -128,6 +128,10 @@ for mtu in (60, 72, 80, 93):
       must_reach=["end", "answered", "overflow", "tx"],
       bounded="small-frame instance MTU=%d (capacity %d) so that 'more observations than fit' is reachable with lists of <= 3 (5) nodes; code is uniform in MTU" % (mtu, (mtu - 34) // 20))
 
+H("parse_query_fullmtu", src="h_probe_query.c", fn="h_parse_query", props=_PQ, enforce=["parseQuery"], unwind=8,
+  unwindset={"parseQuery.0": 8, "lltd_state_clear_seen_probes.0": 8, "parseQuery.1": 8, "v_build_state.0": 50, "lltd_port_memcpy.0": 65},
+  defines=["V_FULL_SYM_MTU=1"], defines_quick=_LD["quick"], defines_thorough=_LD["thorough"], no_native=True,
+  must_reach=["end", "answered", "tx"], bounded="observation list of at most 3 nodes (thorough 5); MTU SYMBOLIC over [576, 9216] (receive and transmit buffers of exactly MTU bytes)")
 H("c10_peer", src="h_c10.c", props=["C10"], enforce=["parseProbe"], unwind=8, unwindset={"v_build_state.0": 50, "parseProbe.0": 8},
   defines=["V_MTU_FIXED=576", "LLTD_SEE_LIST_MAX=3"], defines_quick=["V_LIST_MAX=3"], defines_thorough=["V_LIST_MAX=5", "LLTD_SEE_LIST_MAX=5"],
   bounded="observer's list of at most 3 (thorough 5) nodes")
@@ -137,6 +141,9 @@ H("send_ltr", src="h_large_tlv.c", props=_LT, enforce=["sendLargeTlvResponse"], 
   defines=["V_MTU_FIXED=576", "V_LIST_MAX=3"], defines_quick=["V_DCAP=2048"], defines_thorough=["V_DCAP=66000"], timeout_thorough=3000,
   must_reach=["end", "more", "final", "beyond", "tx"],
   bounded="MTU fixed to 576; property data of at most 2048 bytes (thorough: 66000) with every (size, offset) symbolic")
+H("send_ltr_symmtu", src="h_large_tlv.c", fn="h_send_ltr", props=_LT, enforce=["sendLargeTlvResponse"], unwind=8, unwindset={"v_build_state.0": 50},
+  defines=["V_MTU_FIXED=576", "V_LIST_MAX=3", "V_SYM_MTU=1", "V_DCAP=2048"], no_native=True, must_reach=["end", "more", "final", "beyond", "tx"],
+  bounded="property data of at most 2048 bytes with every (size, offset) symbolic; MTU SYMBOLIC over [576, 9216]")
 H("parse_qlt", src="h_large_tlv.c", props=_LT, enforce=["parseQueryLargeTlv"], unwind=8,
   unwindset={"v_build_state.0": 50, "parseQueryLargeTlv.0": 34, "v_hwid_size.0": 34, "h_parse_qlt.0": 66, "h_parse_qlt.1": 66, "v_give_blob.0": 50, "lltd_port_get_hw_id.0": 66},
   defines=["V_MTU_FIXED=576", "V_LIST_MAX=3"], must_reach=["end", "icon", "fname", "hwid", "unknown", "seq0", "tx"],
@@ -238,7 +245,7 @@ H("linux_loop_sd", src="h_linux_daemon.c", fn="h_linux_loop", props=["C01", "C17
 # lltdLoop's precondition" - was built and could not be decided: out of memory at 24 GB with CBMC's safety checks, with and without DFCC,
 # and no result within 900 s with the checks off and the constructors replaced by their contracts; see DESIGN.md section 4, C01)
 _HANDLERS = ["send_probe", "parse_emit", "parse_emit_strict"] + _EMIT_SMALL + [ "parse_probe", "parse_query", "parse_query_mtu60", "parse_query_mtu72",
-             "parse_query_mtu80", "parse_query_mtu93", "parse_query_symmtu", "send_ltr", "parse_qlt"]
+             "parse_query_mtu80", "parse_query_mtu93", "parse_query_symmtu", "parse_query_fullmtu", "send_ltr", "send_ltr_symmtu", "parse_qlt"]
 _FRAME_PATH = ["parse_frame"] + _HELLO_ALL + _HANDLERS
 _H1 = [_HELLO_QUICK[0]]          # one Hello instance where the Hello-specific clauses are not the point (quick tier)
 H("parse_query_symmtu", src="h_probe_query.c", fn="h_parse_query", props=_PQ, enforce=["parseQuery"], unwind=8,
@@ -270,8 +277,8 @@ PROPS = {
     "C03": {"harnesses": _HELLO_ALL + ["wire_headers", "parse_frame"]},
     "C05": {"harnesses": ["parse_frame", "parse_emit", "parse_query", "parse_qlt"] + _H1,
             "explanation": "parseFrame is proved with the handlers replaced by their contracts; the mapper clauses of those contracts (C05.emit-state, C05.query-mapper, C05.qlt-state, C05.hello-state) are proved on the handlers here"},
-    "C08": {"harnesses": ["send_ltr", "parse_qlt", "parse_qlt_bigicon", "c08_reassembly"]},
-    "C07": {"harnesses": ["parse_probe", "parse_query", "parse_query_mtu60", "parse_query_mtu72", "parse_query_mtu80", "parse_query_mtu93", "parse_query_symmtu"]},
+    "C08": {"harnesses": ["send_ltr", "send_ltr_symmtu", "parse_qlt", "parse_qlt_bigicon", "c08_reassembly"]},
+    "C07": {"harnesses": ["parse_probe", "parse_query", "parse_query_fullmtu", "parse_query_mtu60", "parse_query_mtu72", "parse_query_mtu80", "parse_query_mtu93", "parse_query_symmtu"]},
     "C06": {"harnesses": ["send_probe", "parse_emit", "parse_emit_strict", "parse_frame"] + _EMIT_SMALL,
             "explanation": "sendProbeMsg and parseEmit against their contracts; the exact-count clause on small-frame instances where a maximum-size Emit is reachable; the dispatcher clause C06.emit-dispatched (parseFrame hands the active mapper's Emit to parseEmit)"},
     "C10": {"harnesses": ["send_probe", "parse_emit_strict", "parse_probe", "c10_peer"]},
